@@ -15,6 +15,9 @@ operator means for the representation the translator chose.
   Go slice (parameterised)       ↦ `List`     (`len` ↦ `List.length`, `s[i]` ↦ `index?`,
                                                `for .. range s` ↦ structural recursion)
   Go `error`                     ↦ `Option Cause` (`Cause`: the generated inductive of sentinels)
+  Go `string` (constants, ==)    ↦ `String`
+  Go `any` holding a bool / int64 / uint64 / string / float64 ↦ `Any` (tagged by the dynamic
+                                               type; a float64 only as a MARKER, without value)
 
 A Go shift by a count ≥ the width yields 0 (or the sign for a signed `>>`), which is what the
 `BitVec` shifts by a `Nat` do.  A negative shift count and a division by zero panic in Go; the
@@ -56,5 +59,26 @@ structure IdIndex where
   id : Nat
   index : Int
   deriving Repr, DecidableEq, Inhabited
+
+/-- A Go `any` (`interface{}`) value, tagged with its dynamic type, for the dynamic types the
+    translator supports.  `float64`: only the FACT that a float64 is stored — its value is the
+    result of genuine float arithmetic, which the translator does not translate. -/
+inductive Any where
+  | nil
+  | bool (b : Bool)
+  | int64 (v : BitVec 64)
+  | uint64 (v : BitVec 64)
+  | float64
+  | str (s : String)
+  deriving Repr, DecidableEq
+
+/-- The translated fields of a `SignalDecoding` (signal_layout.go): `RawValue`, `ValueType` (the
+    string value of the `SignalValueType` constant) and `Value`.  `Signal` and `Unit` are not
+    translated. -/
+structure Decoded where
+  rawValue : BitVec 64
+  valueType : String
+  value : Any
+  deriving Repr, DecidableEq
 
 end Acme.GoSem
